@@ -431,7 +431,7 @@ def run(ctx):
                     bads=["read_data_returned_while_dma_cannot_take_it(overrun)"])
             continue
         if ctx.tier == "quick" and "q" in tiers:
-            ctx.add(n, kq, timeout=900)
+            ctx.add(n, kq, timeout=1800)
         elif ctx.tier == "thorough":
             ctx.add(n, kt, timeout=3000, min_K=(kq or 18) - 2, chunk=4, cover_required="_d1" not in n)
     ctx.run()
